@@ -712,7 +712,18 @@ class PureScheduler:                                    # pylint: disable=r0902
             # wait for the forever tasks for a clean exit
             # don't bother to set a timeout, as this is expected
             # to be immediate since all tasks are canceled
-            await asyncio.wait(pending)
+            # if we get cancelled ourselves in the meanwhile (nested
+            # scheduler), keep on waiting and pass it on afterwards,
+            # so as to never leave these tasks behind
+            cancelled = None
+            while True:
+                try:
+                    await asyncio.wait(pending)
+                    break
+                except asyncio.CancelledError as exc:
+                    cancelled = exc
+            if cancelled is not None:
+                raise cancelled
 
     async def _tidy_tasks_exception(self, tasks):
         """
@@ -883,7 +894,13 @@ class PureScheduler:                                    # pylint: disable=r0902
         await self._feedback(None, "scheduler is shutting down...")
 
         # the done part is of no use here
-        _, pending = await asyncio.wait(tasks, timeout=timeout)
+        try:
+            _, pending = await asyncio.wait(tasks, timeout=timeout)
+        except asyncio.CancelledError:
+            # nested scheduler whose enclosing scheduler won't wait any
+            # longer: do not leave the co_shutdown() tasks behind
+            await self._tidy_tasks([t for t in tasks if not t.done()])
+            raise
         # everything went fine
         # NOTE however: here we say that sub-schedulers that expired in timeout
         # should not impact the overall result; this is an arguable choice
@@ -944,6 +961,22 @@ class PureScheduler:                                    # pylint: disable=r0902
 
         No automatic shutdown is performed, user needs to explicitly call
         :meth:`co_shutdown()` or :meth:`shutdown()`.
+        """
+        try:
+            return await self._co_run()
+        except asyncio.CancelledError:
+            # this happens to a nested scheduler when its enclosing scheduler
+            # times out, aborts, or completes while we are a forever job;
+            # asyncio.wait() does not cancel the tasks it is waiting for,
+            # so make sure to not leave our own jobs running behind
+            await self._tidy_tasks(
+                [job._task for job in self.jobs
+                 if job._task is not None and not job._task.done()])
+            raise
+
+    async def _co_run(self):                      # pylint: disable=R0912,R0915
+        """
+        The actual orchestration, see :meth:`co_run()`.
         """
         # create a Window no matter what; it will know what to do
         # also if jobs_window is None
